@@ -96,17 +96,40 @@ func (in *Interp) exec(fr *Frame, env Env, ins ssa.Instruction) {
 	case *ssa.Select:
 		env[i] = in.selectStmt(env, i)
 	case *ssa.Defer:
-		if len(in.gs) != fr.base {
-			panic(in.unsupported("defer under a symbolic guard"))
-		}
 		c := i.Call
 		fv, args := in.prepareCall(env, &c)
-		fr.defers = append(fr.defers, func() { in.invoke(fv, args, &c) })
+		fr.defers = append(fr.defers, deferred{g: in.guardSince(fr.base), run: func() { in.invoke(fv, args, &c) }})
 	case *ssa.RunDefers:
+		// the list is kept: the arms of a symbolic branch reach their own RunDefers one after the other, and each
+		// must run the calls registered before the branch (under its own path guard)
 		for k := len(fr.defers) - 1; k >= 0; k-- {
-			fr.defers[k]()
+			d := fr.defers[k]
+			if d.g.IsTrue() {
+				d.run()
+				continue
+			}
+			if in.St.And(in.Guard(), d.g).IsFalse() || !in.feasible(d.g) {
+				continue // registered on another path
+			}
+			// like `if g { call }`: the call's synchronisation events belong to this arm (race.go)
+			rseg := in.raceFork()
+			depth := len(in.gs)
+			in.push(d.g)
+			func() {
+				defer func() {
+					for len(in.gs) > depth {
+						in.pop()
+					}
+					if r := recover(); r != nil {
+						if _, isKill := r.(killPath); !isKill {
+							panic(r)
+						}
+					}
+				}()
+				d.run()
+			}()
+			in.raceJoin(rseg, in.raceArm(rseg))
 		}
-		fr.defers = nil
 	default:
 		panic(in.unsupported(fmt.Sprintf("instruction %T", ins)))
 	}
@@ -116,6 +139,7 @@ func (in *Interp) exec(fr *Frame, env Env, ins ssa.Instruction) {
 func (in *Interp) tryAlt(g *smt.Term, f func() Value) (res Value, ok bool) {
 	depth := len(in.gs)
 	in.push(g)
+	ev := in.raceEvents()
 	defer func() {
 		for len(in.gs) > depth {
 			in.pop()
@@ -128,7 +152,11 @@ func (in *Interp) tryAlt(g *smt.Term, f func() Value) (res Value, ok bool) {
 			panic(r)
 		}
 	}()
-	return f(), true
+	res, ok = f(), true
+	if in.raceEvents() != ev {
+		panic(in.unsupported("synchronisation inside an alternative of a union value while race obligations are recorded"))
+	}
+	return res, ok
 }
 
 // mapAlts applies a function to every alternative of a (possibly union) value,
